@@ -2,3 +2,4 @@
 use vstd::prelude::*;
 use vstd::string::*;
 use vstd::utf8::*;
+use vstd::std_specs::iter::IteratorSpec;
